@@ -17,6 +17,7 @@ package main
 
 import (
 	"bytes"
+	"context"
 	"errors"
 	"fmt"
 	"math"
@@ -804,6 +805,250 @@ func runShape(sc *shapeCase) (o shapeOut) {
 	return
 }
 
+// ---- set-up histories --------------------------------------------------------------------------------------------------------
+//
+// One program (parsed with the good map G = {f: func(int) int, g: func(string) string}) is run 2-3 times on one Interpreter made
+// by interp.New. Each call passes either G itself or G with one entry of an invalid shape (every invalid shape of section 2:
+// undocumented parameter / result types in every position, three results, second result not error, keyword names, non-functions,
+// untyped nil, nil functions). Oracle, each call judged on its own: while no call has been accepted yet, a call with an invalid
+// map is rejected before anything runs with the same error a fresh interpreter gives, and a call with G behaves exactly as on a
+// fresh interpreter; once a call has been accepted (the documentation then forbids changing Funcs) a further call with G still
+// behaves the same, and a call with a changed map must at least not panic. Never a panic. Also: the parser sees a map with an
+// extra entry of invalid shape that the program does not call, the interpreter sees G.
+type histCall struct {
+	Bad    string `json:"invalid_entry,omitempty"` // "" = the good map
+	Method string `json:"method"`
+	bad    *shapeCase
+}
+
+type histCase struct {
+	ParseExtra string     `json:"parse_time_extra_invalid_entry,omitempty"`
+	Calls      []histCall `json:"calls"`
+	Program    string     `json:"program"`
+	parseExtra *shapeCase
+}
+
+const histSrc = `BEGIN { print "ran"; print f(41), g("a") }`
+const histOut = "ran\n42 a!\n"
+
+type histRes struct{ out, err, pnc string }
+
+func histMaps(bad *shapeCase) map[string]any {
+	m := map[string]any{"f": func(x int) int { return x + 1 }, "g": func(s string) string { return s + "!" }}
+	if bad != nil {
+		m[bad.Name] = bad.val
+	}
+	return m
+}
+
+func histExec(it *interp.Interpreter, funcs map[string]any, method string) (r histRes) {
+	var out bytes.Buffer
+	defer func() {
+		if p := recover(); p != nil {
+			r.pnc = fmt.Sprint(p)
+			r.out = out.String()
+		}
+	}()
+	cfg := &interp.Config{Funcs: funcs, Output: &out, Error: &out, Environ: []string{}}
+	var err error
+	if method == "ExecuteContext" {
+		_, err = it.ExecuteContext(context.Background(), cfg)
+	} else {
+		_, err = it.Execute(cfg)
+	}
+	r.out = out.String()
+	if err != nil {
+		r.err = err.Error()
+	}
+	return
+}
+
+func histLeanEntries(bad *shapeCase) string {
+	var b strings.Builder
+	b.WriteString(" C")
+	if bad == nil || bad.Name != "f" {
+		b.WriteString(" 66 func 0 0 P Int R Int E")
+	}
+	if bad == nil || bad.Name != "g" {
+		b.WriteString(" 67 func 0 0 P String R String E")
+	}
+	if bad != nil {
+		b.WriteString(" " + vh.HxS(bad.Name) + " " + bad.FVal + " E")
+	}
+	return b.String()
+}
+
+func runHistories(c *vh.Ctx, shapes []*shapeCase) {
+	var invalid []*shapeCase
+	seen := map[string]bool{}
+	for _, sc := range shapes {
+		if sc.valid || !isIdent(sc.Name) && sc.Name != "f" {
+			continue
+		}
+		k := sc.Name + "|" + sc.FVal
+		if seen[k] {
+			continue
+		}
+		seen[k] = true
+		invalid = append(invalid, sc)
+	}
+	patterns := [][]bool{{true, false}, {true, true, false}, {false, true, false}, {true, false, true}, {true, false, false}} // true = invalid map
+	var cases []*histCase
+	methods := []string{"Execute", "ExecuteContext"}
+	for i, sc := range invalid {
+		for pi, pat := range patterns {
+			if !c.Thorough() && (i+pi)%2 == 1 {
+				continue
+			}
+			hc := &histCase{Program: histSrc}
+			for _, bad := range pat {
+				call := histCall{Method: methods[c.Rng.Intn(2)]}
+				if bad {
+					b := sc
+					if c.Rng.Intn(4) == 0 {
+						b = invalid[c.Rng.Intn(len(invalid))] // a different invalid shape in each rejected call
+					}
+					call.bad, call.Bad = b, b.Name+" = "+b.Desc+" ["+b.FVal+"]"
+				}
+				hc.Calls = append(hc.Calls, call)
+			}
+			if c.Rng.Intn(5) == 0 && sc.Name != "f" && sc.Name != "g" && !strings.HasPrefix(sc.FVal, "other") && sc.FVal != "nil" {
+				// the parser is given G plus an uncalled entry of invalid shape under a name that sorts after f and g
+				pe := *sc
+				pe.Name = "h"
+				hc.parseExtra, hc.ParseExtra = &pe, "h = "+sc.Desc
+			}
+			cases = append(cases, hc)
+		}
+	}
+	// reference behaviour of every map on a fresh interpreter
+	freshErr := func(prog *parser.Program, bad *shapeCase) histRes {
+		it, _ := interp.New(prog)
+		return histExec(it, histMaps(bad), "Execute")
+	}
+	results := make([][]histRes, len(cases))
+	fresh := make([][]histRes, len(cases))
+	parseFail := make([]string, len(cases))
+	vh.Parallel(len(cases), func(i int) {
+		hc := cases[i]
+		defer func() {
+			if p := recover(); p != nil {
+				parseFail[i] = fmt.Sprint("panic: ", p)
+			}
+		}()
+		prog, err := parser.ParseProgram([]byte(histSrc), &parser.ParserConfig{Funcs: histMaps(hc.parseExtra)})
+		if err != nil {
+			parseFail[i] = err.Error()
+			return
+		}
+		it, err := interp.New(prog)
+		if err != nil {
+			parseFail[i] = err.Error()
+			return
+		}
+		for _, call := range hc.Calls {
+			results[i] = append(results[i], histExec(it, histMaps(call.bad), call.Method))
+			fresh[i] = append(fresh[i], freshErr(prog, call.bad))
+		}
+	})
+	var reqs []string
+	for i, hc := range cases {
+		key := hc.ParseExtra
+		accepted := false
+		for _, call := range hc.Calls {
+			key += "|" + call.Method + ":" + call.Bad
+		}
+		c.Eval("hist|"+key, true)
+		c.OracleCase()
+		c.Hit(fmt.Sprintf("history:calls=%d", len(hc.Calls)))
+		if hc.parseExtra != nil {
+			c.Hit("history:parse-time map has an extra invalid entry")
+		}
+		if i%499 == 0 {
+			c.Sample(map[string]interface{}{"history": hc, "results": fmt.Sprintf("%+v", results[i])})
+		}
+		fail := func(what, got, want string) {
+			c.Fail(vh.Failure{Kind: "oracle", What: "set-up history: " + what, Case: hc, Got: got, Want: want})
+		}
+		if parseFail[i] != "" {
+			fail("ParseProgram / New failed for a program that only calls functions of documented shape", parseFail[i], "parses")
+			continue
+		}
+		req := "hist"
+		for j, call := range hc.Calls {
+			r, fr := results[i][j], fresh[i][j]
+			req += histLeanEntries(call.bad)
+			pos := fmt.Sprintf("call %d (%s, %s)", j+1, call.Method, map[bool]string{true: "invalid map", false: "good map"}[call.bad != nil])
+			if r.pnc != "" {
+				fail(pos+" panicked", r.pnc+" | output so far: "+r.out, "no panic")
+				break
+			}
+			if fr.pnc != "" {
+				fail(pos+": the same map panics on a fresh interpreter", fr.pnc, "no panic")
+				break
+			}
+			switch {
+			case call.bad == nil:
+				c.Hit("history:good call")
+				if r.err != "" || r.out != histOut {
+					fail(pos+" does not behave as on a fresh interpreter", fmt.Sprintf("err=%q out=%q", r.err, r.out), fmt.Sprintf("err=\"\" out=%q", histOut))
+				}
+				if fr.err != "" || fr.out != histOut {
+					fail(pos+": fresh interpreter rejects the good map", fmt.Sprintf("err=%q out=%q", fr.err, fr.out), histOut)
+				}
+				accepted = true
+			case !accepted:
+				c.Hit("history:invalid call before any accepted call")
+				if r.err == "" || r.out != "" {
+					fail(pos+" was not rejected before anything ran", fmt.Sprintf("err=%q out=%q", r.err, r.out), "an error and no output")
+				} else if r.err != fr.err {
+					fail(pos+" is rejected with a different error than on a fresh interpreter", r.err, fr.err)
+				}
+				if fr.err == "" {
+					fail(pos+": a fresh interpreter accepts the invalid map", "out="+fr.out, "an error")
+				}
+			default:
+				c.Hit("history:changed map after an accepted call (only no-panic demanded)")
+			}
+		}
+		reqs = append(reqs, req)
+	}
+	if c.HasLean() {
+		for i, a := range c.LeanBatch(reqs) {
+			if parseFail[i] != "" {
+				continue
+			}
+			ans := strings.Fields(a)
+			hc := cases[i]
+			if len(ans) != len(hc.Calls) {
+				c.Fail(vh.Failure{Kind: "correspondence", What: "set-up history: model answer unreadable", Case: hc, Got: a})
+				continue
+			}
+			c.Trace()
+			var real []string
+			for j := range hc.Calls {
+				r := results[i][j]
+				switch {
+				case r.pnc != "":
+					real = append(real, "panic")
+				case r.err != "":
+					real = append(real, "err:"+classifyCheckErr(r.err))
+				case r.out == histOut:
+					real = append(real, "ran")
+				default:
+					real = append(real, "out:"+r.out)
+				}
+			}
+			want := strings.ReplaceAll(strings.ReplaceAll(a, "cached", "ran"), "ok", "ran")
+			if strings.Join(real, " ") != want {
+				c.Fail(vh.Failure{Kind: "correspondence", What: "set-up history: model (cached table as state) and code disagree", Case: hc,
+					Got: strings.Join(real, " "), Want: a})
+			}
+		}
+	}
+	c.Note(fmt.Sprintf("%d set-up histories over %d invalid shapes", len(cases), len(invalid)))
+}
+
 func isIdent(s string) bool { return regexp.MustCompile(`^[A-Za-z_][A-Za-z0-9_]*$`).MatchString(s) }
 
 func main() { vh.Main("C17", runC17) }
@@ -1202,6 +1447,9 @@ func runC17(c *vh.Ctx) {
 			c.Fail(vh.Failure{Kind: "correspondence", What: "model: calling a nil function should be a panic", Got: a})
 		}
 	}
+	// ---------------- 3. set-up histories: several Execute / ExecuteContext calls on ONE Interpreter -------------------------
+	runHistories(c, shapes)
+
 	keys := make([]string, 0)
 	for _, k := range keywordNames {
 		keys = append(keys, k)
